@@ -134,7 +134,7 @@ def run(ctx):
                 arm_spans[("#text", kind)] = arm["body_span"]
                 continue
             for im in matches:
-                if im["scrut_ty"] == "&[u8]" and within(im["span"], arm["body_span"]):
+                if im["scrut_ty"] == "&[u8]" and within(im.get("inlined_at") or im["span"], arm["body_span"]):
                     for ia in im["arms"]:
                         ip = ia["pat"]
                         if isinstance(ip, dict) and "lit" in ip and "bytes" in ip["lit"]:
@@ -175,7 +175,7 @@ def run(ctx):
             s = lit_str(rf.describe(t.args[1], depth=8))
             if s is None:
                 continue
-            owners = [(e, k) for ((e, k), sp) in arm_spans.items() if t.span and within({"file": t.span["file"], "line": t.span["line"], "col": t.span["col"], "eline": t.span["eline"], "ecol": t.span["ecol"]}, sp)]
+            owners = [(e, k) for ((e, k), sp) in arm_spans.items() if t.at and within({"file": t.at["file"], "line": t.at["line"], "col": t.at["col"], "eline": t.at["eline"], "ecol": t.at["ecol"]}, sp)]
             for (e, k) in owners:
                 required.setdefault(e, set()).add(s)
     ctx.counters["reader_required_attributes"] = {k: sorted(v) for k, v in required.items()}
@@ -184,7 +184,7 @@ def run(ctx):
         for n_ in sorted(names):
             n_req += 1
             ctx.require(n_ in wattrs.get(el, {}), "V2", "attr|%s|%s" % (el, n_), "attribute `%s` that the reader looks up on <%s> is written by the writer" % (n_, el), "the reader looks up attribute `%s` on <%s> but the writer writes only %s: read-back loses or rejects what was written" % (n_, el, sorted(wattrs.get(el, {}))))
-    ctx.floor("V2", "required_attributes", n_req, 8)
+    ctx.floor("V2", "required_attributes", n_req, 4)
     # edgedefault literals and polarity on the writer side
     wb = wbodies[0]
     wf = flows.of(wb)
@@ -233,7 +233,7 @@ def run(ctx):
     ctx.rule("V3", "attribute values and text go through quick-xml's escaping/unescaping API on both sides; no reader config")
     bad = [(aty, t) for (aty, t) in push_types if aty.replace(" ", "") not in ("(&str,&str)", "(&'_str,&'_str)")]
     ctx.require(bool(push_types) and not bad, "V3", "push_attribute-type", "all %d push_attribute calls are instantiated at (&str, &str): values are escaped" % len(push_types), "push_attribute instantiated at %s: raw bytes bypass escaping" % sorted({a for (a, t) in bad}), loc_str(bad[0][1].span) if bad else None)
-    ctx.floor("V3", "push_attribute_calls", len(push_types), 8)
+    ctx.floor("V3", "push_attribute_calls", len(push_types), 4)
     rscope = prog.reachable_bodies([reader.path])
     vals = []
     forbidden = []
